@@ -49,12 +49,62 @@ def counter_incs(b):
     return out
 
 
+def _num_expr(b, l, depth=0):
+    """Symbolic value of an integer-ish local: ("local", x, k) = value of local x plus k, ("enum", bi, k) = index yielded by
+    the Enumerate::next call in block bi plus k, or None. Follows copies, references, derefs, to_string/deref calls,
+    integer casts and `+ const`."""
+    if depth > 14:
+        return None
+    defs = []
+    for bi, bl in enumerate(b["blocks"]):
+        for st in bl["s"]:
+            if st["k"] == "assign" and st["lhs"]["l"] == l and not st["lhs"].get("pr"):
+                defs.append(("s", st["rv"], bi))
+        t = bl["t"]
+        if t["k"] == "call" and t.get("dest", {}).get("l") == l and not t.get("dest", {}).get("pr"):
+            defs.append(("c", t, bi))
+    if len(defs) != 1:
+        return ("local", l, 0)
+    kind, x, bi = defs[0]
+    if kind == "c":
+        nm = x.get("fn", "")
+        if nm.split("::")[-1] in ("to_string", "deref", "clone") and x["args"] and "p" in x["args"][0]:
+            return _num_expr(b, x["args"][0]["p"]["l"], depth + 1)
+        if "Enumerate" in nm and nm.endswith("::next"):
+            return ("enumnext", bi, 0)
+        return ("local", l, 0)
+    rv = x
+    if rv["k"] == "ref":
+        return _num_expr(b, rv["place"]["l"], depth + 1) if all(e == "*" for e in rv["place"].get("pr", [])) else ("local", l, 0)
+    if rv["k"] in ("use", "cast") and "p" in rv.get("op", {}):
+        pl = rv["op"]["p"]
+        inner = _num_expr(b, pl["l"], depth + 1)
+        prs = [e for e in pl.get("pr", []) if e != "*"]
+        if not prs:
+            return inner
+        # projections: (Option<(usize, T)> as Some).0.0 of an Enumerate::next result is the index; (T, bool).0 of a checked add
+        fields = [e.get("f") for e in prs if isinstance(e, dict) and "f" in e]
+        if inner and inner[0] == "enumnext":
+            return ("enum", inner[1], 0) if fields[-1:] == ["0"] and len(fields) >= 2 else ("local", l, 0)
+        if inner and inner[0] == "tuple_enum":
+            return ("enum", inner[1], 0) if fields == ["0"] else ("local", l, 0)
+        if inner and inner[0] == "checked" and fields == ["0"]:
+            return inner[1]
+        return ("local", l, 0)
+    if rv["k"] == "bin" and rv["op"] in ("Add", "AddWithOverflow") and "p" in rv["a"] and "i" in rv["b"]:
+        inner = _num_expr(b, rv["a"]["p"]["l"], depth + 1)
+        if inner and inner[0] in ("local", "enum"):
+            v = (inner[0], inner[1], inner[2] + rv["b"]["i"])
+            return ("checked", v) if rv["op"] == "AddWithOverflow" else v
+    return ("local", l, 0)
+
+
 def rule_positions(chk, fb):
     """Sheet parts are numbered by position in the sheet list, in every pass over it (raw and loaded sheets alike)."""
     rp = chk.rule(
         "C11.b.pos",
-        "sheet numbers are positions: in every loop of the package writer over the sheet list, the sheet counter advances on every path through the loop body (a skipped raw sheet still counts) and every use sees 1 + the number of sheets before it",
-        floor=5,
+        "sheet numbers are positions: in every loop of the package writer over the sheet list, every sheet number handed to a part writer equals 1 + the number of sheets before it - a counter that starts right and advances on every path through the loop body (a skipped raw sheet still counts), or the enumeration index + 1",
+        floor=3,
     )
     d = "writer::xlsx::make_buffer"
     b = fb.mir.get(d)
@@ -69,51 +119,69 @@ def rule_positions(chk, fb):
         loops.setdefault(h, [set(), []])
         loops[h][0] |= cfg.natural_loop(t, h)
         loops[h][1].append(t)
-    n = 0
-    for x, ib in counter_incs(b):
-        # innermost loop containing the increment
-        cands = [(len(body), h) for h, (body, tails) in loops.items() if ib in body]
-        if not cands:
-            continue
-        h = min(cands)[1]
-        body, tails = loops[h]
-        # is this a loop over the sheet list?
-        over_sheets = any(("call", ) and a[0] == "call" and a[1].endswith("get_sheet_collection_no_check") for bi, t in fl.calls() if bi in body and t.get("fn", "").endswith("Iterator>::next") for a in fl.atoms(t["args"][0]))
-        if not over_sheets:
-            continue
-        seen = set()
-        work = [h]
-        while work:
-            y = work.pop()
-            if y in seen or y == ib or y not in body:
-                continue
-            seen.add(y)
-            work.extend(z for z in cfg.succ[y] if z != h)
-        bypass = any(t in seen for t in tails)
-        name = b["locals"][x].get("n") or "counter"
-        chk.ob(rp, "loop#%d:%s advances every iteration" % (n, name), not bypass, where="%s:%s" % (b["file"], b["blocks"][ib]["t"].get("ln")),
-               detail="some path through the loop body skips the increment of `%s` (sheets after a skipped one get the wrong number)" % name if bypass else "`%s` is incremented on every path through the loop body" % name)
-        # initial value and order of increment vs uses
-        init = None
-        for bi2, bl in enumerate(b["blocks"]):
-            if bi2 in body:
-                continue
-            for st in bl["s"]:
-                if st["k"] == "assign" and st["lhs"]["l"] == x and not st["lhs"].get("pr") and st["rv"]["k"] == "use" and "i" in st["rv"]["op"] and cfg.dominates(bi2, h):
-                    init = st["rv"]["op"]["i"]
-        uses = []
+    # loops over the sheet list, outermost first
+    sheet_loops = []
+    for h, (body, tails) in sorted(loops.items()):
+        nx = [(bi, t) for bi, t in fl.calls() if bi in body and t.get("fn", "").endswith("::next") and any(a[0] == "call" and a[1].endswith("get_sheet_collection_no_check") for a in fl.atoms(t["args"][0]))]
+        if nx and not any(h in loops[h2][0] and h2 != h and any(bi in loops[h2][0] for bi, _ in nx) and len(loops[h2][0]) > len(body) and False for h2 in loops):
+            # the loop whose own header drives that iterator: the next() call is in the smallest such loop
+            if all(len(body) <= len(loops[h2][0]) for h2 in loops if all(bi in loops[h2][0] for bi, _ in nx)):
+                sheet_loops.append((h, body, tails, nx))
+    incs = counter_incs(b)
+    n_use = 0
+    for li, (h, body, tails, nx) in enumerate(sheet_loops):
         for bi2, t in fl.calls():
-            if bi2 in body and t.get("fn", "") in fb.mir and not t.get("fn", "").startswith(("std::", "core::")):
-                for a in t["args"]:
-                    if "p" in a and _derives_from_local(b, a["p"]["l"], x):
-                        uses.append((bi2, t))
-        for bi2, t in uses:
-            before = cfg.dominates(ib, bi2) and bi2 in cfg.reachable(ib, avoid=[h])
-            after = bi2 not in cfg.reachable(ib, avoid=[h])
-            val = None if init is None or not (before or after) else init + (1 if before else 0)
-            chk.ob(rp, "loop#%d:%s at %s" % (n, name, t["fn"].split("::")[-2] + "::" + t["fn"].split("::")[-1]), val == 1, where="%s:%s" % (b["file"], t["ln"]),
-                   detail="initial value %s, increment %s the use: the first sheet is numbered %s" % (init, "before" if before else ("after" if after else "neither always before nor always after"), val))
-        n += 1
+            if bi2 not in body or t.get("fn", "") not in fb.mir or t.get("fn", "").startswith(("std::", "core::")):
+                continue
+            for ai, a in enumerate(t["args"]):
+                if "p" not in a:
+                    continue
+                tyn = fb.ty(b["locals"][a["p"]["l"]]["t"])
+                if tyn not in ("&i32", "&u32", "&usize", "i32", "u32", "usize", "&std::string::String", "&str"):
+                    continue
+                e = _num_expr(b, a["p"]["l"])
+                if not e or e[0] not in ("local", "enum"):
+                    continue
+                callee = t["fn"].split("::")[-2] + "::" + t["fn"].split("::")[-1]
+                if e[0] == "enum":
+                    if e[1] not in [x for x, _ in nx] and not any(bb in body for bb in [e[1]]):
+                        continue
+                    ok = e[2] == 1
+                    chk.ob(rp, "loop#%d:%s:arg%d" % (li, callee, ai), ok, where="%s:%s" % (b["file"], t["ln"]), detail="sheet number = enumeration index + %d" % e[2])
+                    n_use += 1
+                    continue
+                x, off = e[1], e[2]
+                mine = [ib for (xx, ib) in incs if xx == x and ib in body]
+                if not mine:
+                    continue
+                ib = mine[0]
+                name = b["locals"][x].get("n") or "counter"
+                # the counter advances on every path through the body
+                seen = set()
+                work = [h]
+                while work:
+                    y = work.pop()
+                    if y in seen or y == ib or y not in body:
+                        continue
+                    seen.add(y)
+                    work.extend(z for z in cfg.succ[y] if z != h)
+                bypass = any(tl in seen for tl in tails)
+                init = None
+                for bi3, bl in enumerate(b["blocks"]):
+                    if bi3 in body:
+                        continue
+                    for st in bl["s"]:
+                        if st["k"] == "assign" and st["lhs"]["l"] == x and not st["lhs"].get("pr") and st["rv"]["k"] == "use" and "i" in st["rv"]["op"] and cfg.dominates(bi3, h):
+                            init = st["rv"]["op"]["i"]
+                before = cfg.dominates(ib, bi2) and bi2 in cfg.reachable(ib, avoid=[h])
+                after = bi2 not in cfg.reachable(ib, avoid=[h])
+                val = None if init is None or not (before or after) else init + (1 if before else 0) + off
+                ok = val == 1 and not bypass
+                chk.ob(rp, "loop#%d:%s:arg%d" % (li, callee, ai), ok, where="%s:%s" % (b["file"], t["ln"]),
+                       detail="counter `%s`: initial value %s, increment %s the use, offset %d: the first sheet is numbered %s; %s" % (
+                           name, init, "before" if before else ("after" if after else "neither always before nor always after"), off, val,
+                           "some path through the loop body skips the increment (sheets after a skipped one get the wrong number)" if bypass else "incremented on every path through the loop body"))
+                n_use += 1
 
 
 def _derives_from_local(b, l, x, depth=0):
